@@ -4,7 +4,7 @@ import re
 from tools.vlib import *
 
 PID = "C07"
-READY = False
+READY = True
 MANIFEST = {
     "level_text": "Lean 4 theorems about a hand-written model of KademliaTable's routing half (bucket_index_for, upsert_bucket, "
                   "register_peer, add_contact's upsert, sweep_buckets, closest_peers), for every local id, every finite sequence of "
